@@ -302,7 +302,7 @@ fn tc_clauses(ctx: &mut Ctx, h: &str, edge: &str, variant: usize) -> (Rule, Rule
 /// The shape is *chosen* (DESIGN §5 "Generators shared by C01–C08").
 pub fn gen_program(ctx: &mut Ctx) -> GenProg {
     let ev_ = edb_vocab();
-    let shape = ctx.below(14);
+    let shape = ctx.below(15);
     let mut rules: Vec<Rule> = vec![];
     let name: &'static str;
     match shape {
@@ -376,7 +376,8 @@ pub fn gen_program(ctx: &mut Ctx) -> GenProg {
             for i in (1..groups.len()).rev() { let j = ctx.below(i + 1); groups.swap(i, j); }
             for g in groups { rules.extend(g); }
             if ctx.chance(1, 4) && rules.len() > 2 { let i = ctx.below(rules.len()); let j = ctx.below(rules.len()); rules.swap(i, j); }
-            rules.push(gen_query(ctx, &last.0, last.1)); }
+            // without a query head an earlier head may depend on the last one ("last stays last")
+            if ctx.chance(2, 3) { rules.push(gen_query(ctx, &last.0, last.1)); } }
         10 => { name = "aggregate";
             let f = *ctx.pick(&["count", "sum", "min", "max", "count_distinct"]);
             let mut o = ClauseOpts::default(); o.max_atoms = 2;
@@ -409,6 +410,13 @@ pub fn gen_program(ctx: &mut Ctx) -> GenProg {
             let mut av = ev_.clone(); av.push(("a".into(), ar));
             let k = 2 + ctx.below(2); let ar_b = 1 + ctx.below(2);
             for _ in 0..k { rules.push(gen_clause(ctx, "b", ar_b, &av, &ev_, &ClauseOpts { min_atoms: 2, ..Default::default() })); } }
+        13 => { name = "last_rule_extends_earlier_head";
+            // the last rule of the text adds a clause to a head introduced earlier (direct-API shape)
+            rules.push(gen_clause(ctx, "a", 1, &ev_, &ev_, &ClauseOpts::default()));
+            let mut av = ev_.clone(); av.push(("a".into(), 1));
+            let mut o = ClauseOpts::default(); o.must_use = Some(("a".into(), 1));
+            rules.push(gen_clause(ctx, "b", 1, &av, &ev_, &o));
+            rules.push(gen_clause(ctx, "a", 1, &ev_, &ev_, &ClauseOpts::default())); }
         _ => { name = "random_mix";
             let names = ["a", "b", "c"]; let nh = 1 + ctx.below(3);
             let mut avail = ev_.clone(); let mut negs = ev_.clone(); let mut last = ("a".to_string(), 1usize);
@@ -451,7 +459,7 @@ pub fn new_engine(cfg: &Cfg) -> inputlayer::IQLEngine {
 }
 /// small error enum shared with the Lean model
 pub fn err_class(e: &str) -> String {
-    if e.starts_with("Unsafe rule") { "err:unsafe".into() }
+    if e.starts_with("Unsafe rule") { "err:range".into() }
     else if e.contains("not found in schema") || e.contains("shares no variables") || e.contains("no positive body atoms") || e.contains("in aggregation head") || e.contains("Unsupported comparison") || e.contains("not found in schema for arithmetic") { "err:build".into() }
     else if e.contains("No IR nodes") { "err:empty".into() }
     else { format!("err:other:{}", e.chars().take(60).collect::<String>().replace(' ', "_")) }
@@ -467,6 +475,26 @@ pub fn run_engine(cfg: &Cfg, edb: &[(String, Vec<Tuple>)], rules: &[Rule]) -> St
     let mut e = new_engine(cfg);
     for (r, ts) in edb { e.add_tuples(r, ts.clone()); }
     match e.execute_tuples(&text) { Ok(ts) => rel_to_wire(&ts), Err(m) => err_class(&m) }
+}
+/// like `run_engine`, but also reports every derived relation the run accumulated
+/// (`execute_tuples_with_derived`): `answer#a=..#b=..`, relations sorted by name.
+pub fn run_engine_all(cfg: &Cfg, edb: &[(String, Vec<Tuple>)], rules: &[Rule]) -> String {
+    let text = program_iql(rules);
+    match real_parse_wire(&text) {
+        Ok(w) => if w != rules.iter().map(rule_wire).collect::<Vec<_>>() { return "err:wire-mismatch".into(); },
+        Err(_) => return "err:parse".into(),
+    }
+    let mut e = new_engine(cfg);
+    for (r, ts) in edb { e.add_tuples(r, ts.clone()); }
+    match e.execute_tuples_with_derived(&text) {
+        Ok((ts, derived)) => {
+            let mut names: Vec<&String> = derived.keys().collect(); names.sort();
+            let mut out = rel_to_wire(&ts);
+            for n in names { out.push_str(&format!("#{}={}", n, rel_to_wire(&derived[n]))); }
+            out
+        }
+        Err(m) => err_class(&m),
+    }
 }
 /// request `<op> <cfg> | items`
 pub fn split_req(req: &str) -> Option<(String, Cfg, Vec<(String, Vec<Tuple>)>, Vec<Rule>)> {
